@@ -261,3 +261,17 @@ Definition run_clock (ident : Z) (k0 : clk) (evs : list cev) : clk * option Z :=
 Definition clock_obj (pid ident : Z) (k0 : clk) (evs : list cev) : pobj :=
   let (k, c) := run_clock ident k0 evs in
   {| o_pid := pid; o_ident := ident; o_ctime := option_map (fun w => w - k_eff k) c; o_known := true |}.
+
+(* ------------------------------------------------------------ object protocols
+   copy.copy(p): a shallow copy -- a new Process object with the same __dict__ entries: the same
+   pid, the same identity (_ident, shared), the same create_time() cache (and the same flags);
+   it is another handle on the SAME incarnation.  copy.deepcopy(p) and a pickle round trip raise
+   TypeError in the code as it is (the object holds an RLock): no object is created. *)
+Definition copy_obj (o : pobj) : pobj :=
+  {| o_pid := o_pid o; o_ident := o_ident o; o_ctime := o_ctime o; o_known := o_known o |}.
+Inductive copy_how := ShallowCopy | DeepCopy | PickleRoundTrip.
+Definition copy_result (how : copy_how) (o : pobj) : outcome pobj :=
+  match how with
+  | ShallowCopy => Val (copy_obj o)
+  | DeepCopy | PickleRoundTrip => Exc TypeError
+  end.
